@@ -86,6 +86,13 @@ def rule_contracts(prop, config="all", floor_key=None):
         spec, src = spec_for(u)
         b = facts.by_uname.get(u)
         if spec is None:
+            if b is not None and not b.get("impl_trait") and not b.get("in_trait") and not b.get("public") and b["kind"] != "Closure":
+                # a private free function / inherent helper that is handed the parser input (an extracted failure tail, a shared loop
+                # body): it is interpreted in place inside every protocol body that calls it, so it is judged there, as if written inline
+                helpers = getattr(r, "_helpers", [])
+                helpers.append(u)
+                r._helpers = helpers
+                continue
             unspecified.append(u)
             r.ob(False)
             r.violations.append(V("CONTRACT", u, "unspecified combinator body",
